@@ -41,7 +41,7 @@ CLAIMS = {
          "and JSON decoding are not decided.", "DESIGN.md section 4 C05"),
  "C06": ("CFG-reachability order of candidate reads + units rule for mount-relative indexes (value-flow census) + panic-guard dominance at registration + match-record assembly census",
          "Decides structural necessary conditions of routing: literal before placeholder before wildcard with fall-through on a failed recursive match; mount-relative index fields are written as "
-         "tokenIndex-mountIndex and rebased at every read (one known finding: group tag indexes); registration validates before storing; a group ${tag} is located by whole-token equality in the split pattern; the lookup call tree writes no shared state (concurrent lookups cannot mix their tokens); the match record (node, mount index, params) is written "
+         "tokenIndex-mountIndex and rebased at every read (one known finding: group tag indexes); registration validates before storing; a group ${tag} is located by whole-token equality in the split pattern; the lookup call tree writes no shared state (concurrent lookups cannot mix their tokens) and matches the mux path on a token boundary; the match record (node, mount index, params) is written "
          "atomically at the accept sites and the returned Match takes handler, listeners and group from that one node. Equality with a reference matcher over all inputs is not decided.", "DESIGN.md section 4 C06"),
  "C07": ("funnel census + subject-template matching over concatenation trees + validator rune-class facts + struct-tag / literal vocabulary checks",
          "Decides for every handler program that each published subject is an instance of one of the five documented templates with validated variable parts, that the token validator rejects "
@@ -72,14 +72,14 @@ CLAIMS = {
          "functions is not decided.", "DESIGN.md section 4 C14"),
  "C17": ("sibling analysis of the pattern scanners: token-start-flag recogniser (loop-head bool phi) + guard dominance on every wildcard comparison + validator rune-class agreement + single-pass replacement rule",
          "Decides that no pattern operation can give '$', '*' or '>' a wildcard meaning in the middle of a token (each wildcard comparison is under a token-start guard; Values' exception is "
-         "accepted only with its whole-token witness; the mux compares token[0]), that no operation looks for a wildcard character with a position-blind strings/bytes search, that the three validators accept the same character range, and that tag replacement is one simultaneous pass. "
+         "accepted only with its whole-token witness; the mux compares token[0]), that no operation looks for a wildcard character with a position-blind strings/bytes search, that a one-token wildcard never covers a full wildcard in Matches, that the three validators accept the same character range, and that tag replacement is one simultaneous pass. "
          "Agreement of the operations on every string and round-trips are not enumerated.", "DESIGN.md section 4 C17"),
  "C09": ("who-may-read/write census of the ownership lists + dominance (default before read) + sibling comparison of the two subscription loops + predicate/dispatcher field-set agreement + possibly-empty-value use census",
          "Decides that subscriptions and reset are built from the same lists, defaulted only when nil, that request types x lists and the method wildcard are formed as documented, that every subscription passes "
-         "the in-channel with the right queue variant and propagates its error, that both subscription loops skip covered patterns (access loop: known finding) with the covering test applied to every other pattern (no text-dependent pre-filter), that default ownership looks at "
+         "the in-channel with the right queue variant and propagates its error, that both subscription loops skip covered patterns (access loop: known finding) with the covering test applied to every other pattern (no text-dependent pre-filter), that handler-kind detection traverses the whole trie, that default ownership looks at "
          "the handler kinds the dispatcher serves, that an empty service path never becomes a bare token, and that reconnects re-announce ownership. Covering for arbitrary user lists is not decided.", "DESIGN.md section 4 C09"),
  "C18": ("constant / struct-tag / literal vocabulary agreement across three packages (literals parsed inside the analyser) + symbolic linear layout check of hand-assembled buffers + value-flow of the variable segment",
-         "Decides the structural part of wire compatibility: reference, soft-reference, delete-action and data-value members agree between service, store and client, and the data member is decoded into json.RawMessage so that null stays distinct from absent, and no UnmarshalJSON keeps its input slice; response / get / access result "
+         "Decides the structural part of wire compatibility: reference, soft-reference, delete-action and data-value members agree between service, store and client, and the data member is decoded into json.RawMessage so that null stays distinct from absent, no UnmarshalJSON keeps its input slice, and the value parser assigns an object class only when the other members are known absent; response / get / access result "
          "members agree between service and client; every hand-built JSON buffer is exactly filled for all input lengths and its variable part is json.Marshal output (so escaping is the "
          "encoder's). decode(encode(x))==x on values is not decided.", "DESIGN.md section 4 C18"),
  "C19": ("path obligations on SendRequest's CFG: release-after-acquire with deferred call, error-edge reachability, select-arm classification, dominating-condition census for the timer restart, literal agreement with the service",
@@ -92,7 +92,7 @@ CLAIMS = {
          "that every library goroutine ranging over a channel can terminate (query listener: known finding). Timing of late requests versus the drain is not decided.", "DESIGN.md section 4 C15"),
  "C16": ("lockset discipline (lock-state dataflow x field access census) on the shared structures with named exemptions + logger/mock-store lock rules + shared-loop-variable rule",
          "A discipline check, not a race proof: every Service/work field written outside configuration and initialisation is accessed only under the queue mutex or only atomically (two known "
-         "findings: Shutdown clearing nc/inCh), the in-memory logger's buffer is used under its mutex, the mock store's map only inside transaction methods (or their private helpers), the check-then-register of a group's work item is one critical section (the premise of group confinement, shared with C01.A2), stores into request objects target memory allocated by the constructing function (no pointer into the query event or service), and no closure handed on from a loop "
+         "findings: Shutdown clearing nc/inCh), the in-memory logger's buffer is used under its mutex, the mock store's map only inside transaction methods (or their private helpers), the check-then-register of a group's work item is one critical section (the premise of group confinement, shared with C01.A2), stores into request objects target memory allocated by the constructing function (no pointer into the query event or service), lookups share no scratch state, and no closure handed on from a loop "
          "shares a re-assigned variable. Per-request objects are confined by contract and not analysed; user code and third-party modules are out of reach.", "DESIGN.md section 4 C16"),
  "C20": ("who-may-call census of transaction writes + guard -> sentinel signature extraction with comparison operators + sibling agreement of the two middleware copies + value-flow of old values",
          "Decides that every middleware apply handler reads and rewrites the resource inside one DB.Update closure, that the inapplicability guards (add len<idx, remove len<=idx, create on "
